@@ -876,58 +876,120 @@ def check_heuristic_exchange(world, rec):
 # --------------------------------------------------------------------------------------------------
 # C17 tables
 # --------------------------------------------------------------------------------------------------
-def check_tables(world, fname, tabs):
-    """Entry (i, j) of every table equals the multiplier the peer returned for the row that carried the
-    constraint generated for samples (i, j); zero where the class generates none."""
-    f = world.h[fname]
-    rec = None
+def _last_ok_solve(world):
     for r in reversed(world.solves):
         if r.exc is None and r.result is not None:
-            rec = r
-            break
-    if rec is None:
+            return r
+    return None
+
+
+def check_tables(world, fname, tabs):
+    """Entry (i, j) of every table equals the multiplier the peer returned for the row that carried the
+    constraint generated for samples (i, j); zero where the class generates none; names address the cell."""
+    f = world.h[fname]
+    rec = _last_ok_solve(world)
+    if rec is None or world.solves[-1] is not rec:
         return
     ctx = build_context(world, rec)
     if not ctx.ok:
         return
     cap = rec.caps[0]
     ans = cap.answer
-    pts = list(f.list_of_points)
     class_items = [it for it in ctx.exp_cons if it["source"] == "class"
                    and any(r["obj"] is it["obj"] and r["owner"] is f for r in rec.created)]
-    if not tabs and class_items:
-        world.violation("O-TABLES", "no-table-for-function-with-class-constraints", {"f": fname})
-        return
-    covered = set()
+    if not class_items:
+        world.reach["tables_function_without_class_rows"] += 1
+    calls = [c for c in rec.table_calls if c["f"] is f]
+    fid = f.get_name() or "Function_%s" % f.counter
+    # (a) every generated class constraint appears in exactly one table, at the cell its name addresses,
+    #     and that cell holds the multiplier of the row that carried it
+    by_obj = {}
     for key, df in tabs.items():
-        vals = np.asarray(df.values, dtype=float)
-        nrows, ncols = vals.shape
-        world.reach["table_cells"] += nrows * ncols
-        # parse the names of the class constraints of this table
-        for it in class_items:
-            name = it["obj"].get_name() or ""
-            prefix = "IC_%s_%s(" % (f.get_name() or "Function_%s" % f.counter, key)
-            if not name.startswith(prefix):
-                continue
-            inside = name[len(prefix):-1]
-            labs = [s.strip() for s in inside.split(",")]
-            covered.add(id(it["obj"]))
-            if "row" not in it:
-                continue
-            want = float(ans.row_dual[it["row"]])
-            # locate the cell by labels
-            try:
-                if len(labs) == 1:
-                    cell = df[labs[0]].iloc[0] if nrows == 1 else None
-                else:
-                    cell = df.loc[labs[0], labs[1]]
-            except Exception:
-                world.violation("O-TABLES", "constraint-name-does-not-address-a-cell", {"name": name, "table": key})
-                continue
-            if cell is None or np.ndim(cell) != 0:
-                world.reach["table_ambiguous_labels"] += 1
-                continue
-            if abs(float(cell) - want) > 1e-9 * (1 + abs(want)):
-                world.violation("O-TABLES", "cell-is-not-the-multiplier-of-its-constraint",
-                                {"table": key, "cell": labs, "got": float(cell), "peer": want})
+        if df.columns.name != "IC_%s" % fid:
+            world.violation("O-TABLES", "table-not-labelled-with-its-function", {"table": key, "label": str(df.columns.name)})
+    for it in class_items:
+        name = it["obj"].get_name() or ""
+        if not name.startswith("IC_%s_" % fid) or not name.endswith(")") or "(" not in name:
+            world.violation("O-TABLES", "class-constraint-name-malformed", {"name": name})
+            continue
+        cond = name[len("IC_%s_" % fid):name.index("(", len("IC_%s_" % fid))]
+        inside = name[name.index("(", len("IC_%s_" % fid)) + 1:-1]
+        labs = [x.strip() for x in inside.split(", ")]
+        if cond not in tabs:
+            world.violation("O-TABLES", "no-table-for-condition", {"condition": cond, "tables": sorted(tabs)})
+            continue
+        df = tabs[cond]
+        if "row" not in it:
+            continue
+        wants = [float(ans.row_dual[k]) for k, r in enumerate(cap.rows) if sig_close(r["sig"], it["sig"])]
+        try:
+            if len(labs) == 1:
+                cell = df[labs[0]]
+                cell = cell.iloc[0] if hasattr(cell, "iloc") and cell.shape == (1,) else cell
+            else:
+                cell = df.loc[labs[0], labs[1]]
+        except Exception:
+            world.violation("O-TABLES", "constraint-name-does-not-address-a-cell", {"name": name, "table": cond})
+            continue
+        if np.ndim(cell) != 0:
+            world.reach["table_ambiguous_labels"] += 1
+            continue
+        if not any(abs(float(cell) - w) <= 1e-9 * (1 + abs(w)) for w in wants):
+            world.violation("O-TABLES", "named-cell-is-not-the-multiplier-of-its-constraint",
+                            {"table": cond, "cell": labs, "got": float(cell), "peer": wants[:3]})
+        world.reach["table_named_cells"] += 1
+    # (b) positional truth: cell (i, j) vs the constraint the class generates for samples (i, j)
+    for c in calls:
+        key = c["name"]
+        if key not in tabs:
+            if len(c["l1"]) > 0 and (c["l2"] is None or len(c["l2"]) > 0):
+                world.violation("O-TABLES", "no-table-for-condition", {"condition": key, "tables": sorted(tabs)})
+            continue
+        vals = np.asarray(tabs[key].values, dtype=float)
+        l1, l2 = c["l1"], c["l2"]
+        shape = (1, len(l1)) if l2 is None else (len(l1), len(l2))
+        if vals.shape != shape:
+            world.violation("O-TABLES", "table-shape", {"table": key, "shape": list(vals.shape), "samples": list(shape)})
+            continue
+        # expected labels
+        def labels(lst):
+            return [(t[0].get_name() or "Point_%d" % k) for k, t in enumerate(lst)]
+        if l2 is None:
+            if [str(x) for x in tabs[key].columns] != labels(l1):
+                world.violation("O-TABLES", "table-labels", {"table": key})
+        else:
+            if [str(x) for x in tabs[key].index] != labels(l1) or [str(x) for x in tabs[key].columns] != labels(l2):
+                world.violation("O-TABLES", "table-labels", {"table": key})
+        mine = [it for it in class_items if "row" in it]
+        for i, ti in enumerate(l1):
+            for j, tj in (enumerate(l2) if l2 is not None else [(None, None)]):
+                try:
+                    con = c["fn"](*ti) if l2 is None else c["fn"](*(tuple(ti) + tuple(tj)))
+                    sig = seam.expression_sig(con.expression)
+                except Exception:
+                    continue
+                cell = vals[0, i] if l2 is None else vals[i, j]
+                if max(abs(x) for x in sig) <= 1e-13:
+                    continue   # the pair formula degenerates to 0 == 0 / 0 <= 0: any multiplier is as good as another
+                if l2 is not None and ti is tj:
+                    continue   # same sample on both sides: no condition to report
+                wants = []
+                for it in mine:
+                    if sig_close(it["sig"], sig):
+                        wants += [float(ans.row_dual[k]) for k, r in enumerate(cap.rows) if sig_close(r["sig"], sig)]
+                        break
+                world.reach["table_cells"] += 1
+                if not wants:
+                    if abs(cell) > 1e-12:
+                        world.violation("O-TABLES", "nonzero-cell-without-constraint",
+                                        {"table": key, "cell": [i, j], "got": float(cell)})
+                    continue
+                # for a symmetric condition the class generates one constraint per unordered pair: the cell
+                # that holds it is (i, j) or (j, i); the other one must be 0
+                if not any(abs(cell - w) <= 1e-9 * (1 + abs(w)) for w in wants):
+                    if c["symmetry"] and l2 is not None and abs(cell) <= 1e-12 and i != j and \
+                            any(abs(vals[j, i] - w) <= 1e-9 * (1 + abs(w)) for w in wants if j < vals.shape[0] and i < vals.shape[1]):
+                        continue
+                    world.violation("O-TABLES", "cell-is-not-the-multiplier-of-the-constraint-of-its-pair",
+                                    {"table": key, "cell": [i, j], "got": float(cell), "peer": wants[:3]})
     world.reach["tables_checked"] += 1
